@@ -16,7 +16,7 @@ def main():
     for d in eng.decls:
         if d.kind not in ("func", "lemma", "coverage") or pat not in d.name:
             continue
-        if d.kind == "func" and ("effectfree" in d.flags or "assumed" in d.flags or "opaque" in d.flags):
+        if d.kind == "func" and (("effectfree" in d.flags and not d.tags) or "assumed" in d.flags or "opaque" in d.flags):
             continue
         t0 = time.time()
         eng.deadline = time.time() + 60
